@@ -102,8 +102,9 @@ pub fn check_history<F: Family>(f: &F, h: &[Op]) -> Result<(String, String), (us
 fn rebuild<F: Family>(f: &F, h: &[Op]) -> (F::Recv, F::Model) {
     let (mut r, mut m) = f.init(&h[0]);
     for op in &h[1..] {
-        m = f.model(&m, op);
+        let m2 = f.model(&m, op);
         r = f.apply(r, op, &m).expect("replay of an already validated history failed");
+        m = m2;
     }
     (r, m)
 }
